@@ -22,7 +22,8 @@
 (***************************************************************************)
 EXTENDS RouteRef, TLC
 
-CONSTANTS MaxSeg,      \* request = at most MaxSeg segments
+CONSTANTS Quick,       \* TRUE: reduced family for the quick tier (3 methods, deeper levels <= 1 handler)
+          MaxSeg,      \* request = at most MaxSeg segments
           MaxDepth,    \* nesting depth explored by the dispatch machine
           Mut          \* "none" | "search" | "reverse" | "icase" | "wrongparam" | "dollar"  (seeded faults, self-test)
                        \*   "dollar": the internal end anchor is "$" (also matches before a final newline) instead of "\z";
@@ -51,7 +52,7 @@ Strs(n) == IF n = 0 THEN {<<>>} ELSE LET P == Strs(n - 1) IN P \cup { x \o g : x
 Requests == Strs(MaxSeg) \cup { x \o <<10>> : x \in Strs(MaxSeg - 1) }
 
 GETb == <<71, 69, 84>>   POSTb == <<80, 79, 83, 84>>   getb == <<103, 101, 116>>   GETnl == <<71, 69, 84, 10>>
-Methods == {GETb, POSTb, getb, GETnl}
+Methods == IF Quick THEN {GETb, getb, GETnl} ELSE {GETb, POSTb, getb, GETnl}
 NoMeth == [k |-> "none"]
 MGet   == [k |-> "set", s |-> {GETb}, re |-> FALSE]                              \* "GET": compared as a string
 MAlt   == [k |-> "set", s |-> {GETb, POSTb}, re |-> TRUE, alts |-> <<GETb, POSTb>>]  \* "<GET or POST>": a regex, capture-less match
@@ -83,7 +84,7 @@ Mounts(d) ==
 \* option lists of a level: <= 2 handlers and <= 1 mount, the mount at any position
 LevelLists(d) ==
     LET H == Handlers(d)
-        HL == {<<>>} \cup { <<h>> : h \in H } \cup { <<h1, h2>> : h1 \in H, h2 \in H }
+        HL == {<<>>} \cup { <<h>> : h \in H } \cup (IF Quick /\ d > 1 THEN {} ELSE { <<h1, h2>> : h1 \in H, h2 \in H })
     IN HL \cup UNION { { SubSeq(hl, 1, k) \o <<m>> \o SubSeq(hl, k + 1, Len(hl)) : m \in Mounts(d), k \in 0..Len(hl) } : hl \in HL }
 
 \* ------------------------------------------------------------ mechanism: backtracking matcher
